@@ -144,26 +144,41 @@ fn read_call(r: &RLN, call: &str, arg: &Value, msgs: &[Vec<u8>]) -> Value {
         })
     }));
     match res {
+        // (long outputs are recorded as length + digest: equality is all the judge looks at)
+        Ok(Ok(Value::Array(a))) if a.len() > 256 => {
+            let mut h: u64 = 0xcbf29ce484222325;
+            for x in a.iter() {
+                h ^= x.as_u64().unwrap_or(0);
+                h = h.wrapping_mul(0x100000001b3);
+            }
+            json!({"res": "ok", "val": {"len": a.len(), "digest": format!("{h:016x}")}})
+        }
         Ok(Ok(v)) => json!({"res": "ok", "val": v}),
         Ok(Err(_)) => json!({"res": "err"}),
         Err(_) => json!({"res": "panic"}),
     }
 }
 
+/// the frozen tree content of the shared-instance experiment (the same on every instance built for it)
+fn frozen_tree(secrets: &[Fr], idxs: &[usize], lim: Fr, fill: &[Fr]) -> RLN {
+    let mut r = new_rln(20, &Value::Null).unwrap();
+    for (s, i) in secrets.iter().zip(idxs) {
+        let rc = rln::hashers::poseidon_hash(&[rln::hashers::poseidon_hash(&[*s]), lim]);
+        r.set_leaf(*i, Cursor::new(enc_fr(&rc))).unwrap();
+    }
+    r.set_leaves_from(100, Cursor::new(enc_vec_fr(fill))).unwrap();
+    r.delete_leaf(101).unwrap();
+    r.set_metadata(b"frozen").unwrap();
+    r
+}
+
 pub fn shared(seed: u64, nthreads: usize, ncalls: usize, out: &mut Vec<Value>) {
     let mut rg = ChaCha20Rng::seed_from_u64(seed);
-    let mut r = new_rln(20, &Value::Null).unwrap();
     let lim = Fr::from(10u64);
     let secrets: Vec<Fr> = (0..2).map(|_| rnd_fr(&mut rg)).collect();
     let idxs = [5usize, (1 << 19) + 9];
-    for (s, i) in secrets.iter().zip(idxs) {
-        let rc = rln::hashers::poseidon_hash(&[rln::hashers::poseidon_hash(&[*s]), lim]);
-        r.set_leaf(i, Cursor::new(enc_fr(&rc))).unwrap();
-    }
     let fill: Vec<Fr> = (0..40).map(|_| rnd_fr(&mut rg)).collect();
-    r.set_leaves_from(100, Cursor::new(enc_vec_fr(&fill))).unwrap();
-    r.delete_leaf(101).unwrap();
-    r.set_metadata(b"frozen").unwrap();
+    let mut r = frozen_tree(&secrets, &idxs, lim, &fill);
     // messages: two by the same member in the same epoch (recoverable), one by the other
     let e = rnd_fr(&mut rg);
     let mut msgs: Vec<Vec<u8>> = Vec::new();
@@ -191,46 +206,66 @@ pub fn shared(seed: u64, nthreads: usize, ncalls: usize, out: &mut Vec<Value>) {
         ("verify_roots".into(), json!(1)), ("hash".into(), json!([1, 2, 3])), ("hash".into(), json!([])),
         ("poseidon".into(), json!(enc_vec_fr(&[Fr::from(1u64), Fr::from(2u64)]))), ("poseidon".into(), json!(enc_vec_fr(&[secrets[0]; 5]))),
         ("seeded_key_gen".into(), json!([9, 9, 9])), ("seeded_ext_key_gen".into(), json!([9, 9, 9])), ("recover".into(), json!(0)),
+        // membership paths of many positions (asked for over and over by all threads in the last phase)
+        ("get_proof".into(), json!(6)), ("get_proof".into(), json!(100)), ("get_proof".into(), json!(101)), ("get_proof".into(), json!(102)),
+        ("get_proof".into(), json!(139)), ("get_proof".into(), json!((1 << 19) + 9)),
     ];
+    let proof_shapes: Vec<usize> = calls.iter().enumerate().filter(|(_, c)| c.0 == "get_proof").map(|(i, _)| i).collect();
+    let verify_shapes: Vec<usize> = calls.iter().enumerate().filter(|(_, c)| c.0.starts_with("verify")).map(|(i, _)| i).collect();
     // the sequential responses (the specification of every concurrent one)
     for (i, (c, a)) in calls.iter().enumerate() {
         let v = read_call(&r, c, a, &msgs);
         out.push(json!({"t": "seqref", "call": i, "name": c, "resp": v}));
     }
-    let r = Arc::new(r);
+    drop(r);
     let msgs = Arc::new(msgs);
     let calls = Arc::new(calls);
-    let barrier = Arc::new(Barrier::new(nthreads));
-    let (tx, rx) = std::sync::mpsc::channel::<(usize, Vec<Value>)>();
-    for t in 0..nthreads {
-        let (r, msgs, calls, barrier, tx) = (r.clone(), msgs.clone(), calls.clone(), barrier.clone(), tx.clone());
-        std::thread::spawn(move || {
-            quiet_panics();
-            let mut evs = Vec::new();
-            barrier.wait();
-            for j in 0..ncalls {
-                let i = (t * 7 + j * 3) % calls.len();
-                let v = read_call(&r, &calls[i].0, &calls[i].1, &msgs);
-                evs.push(json!({"t": "call", "thr": t, "seq": j, "call": i, "name": calls[i].0, "resp": v}));
-            }
-            let _ = tx.send((t, evs));
-        });
-    }
-    drop(tx);
-    let deadline = Instant::now() + Duration::from_secs(120);
-    let mut done = vec![false; nthreads];
-    while done.iter().any(|d| !*d) {
-        let left = deadline.saturating_duration_since(Instant::now());
-        match rx.recv_timeout(left) {
-            Ok((t, evs)) => {
-                done[t] = true;
-                out.extend(evs);
-            }
-            Err(_) => break,
+    let (proof_shapes, verify_shapes) = (Arc::new(proof_shapes), Arc::new(verify_shapes));
+    // Every round uses a FRESH instance with the same tree content on which nothing has been called yet: all threads
+    // leave the barrier together and begin with a verification (whatever an instance initialises lazily is then
+    // initialised under contention); then the mixed calls; then a storm of membership-path queries.
+    let rounds = if ncalls >= 200 { 6 } else { 3 };
+    for round in 0..rounds {
+        let r = Arc::new(frozen_tree(&secrets, &idxs, lim, &fill));
+        let barrier = Arc::new(Barrier::new(nthreads));
+        let (tx, rx) = std::sync::mpsc::channel::<(usize, Vec<Value>)>();
+        for t in 0..nthreads {
+            let (r, msgs, calls, barrier, tx) = (r.clone(), msgs.clone(), calls.clone(), barrier.clone(), tx.clone());
+            let (proof_shapes, verify_shapes) = (proof_shapes.clone(), verify_shapes.clone());
+            std::thread::spawn(move || {
+                quiet_panics();
+                let mut evs = Vec::new();
+                barrier.wait();
+                let per_round = ncalls / rounds + 1;
+                for j in 0..per_round {
+                    let i = if j == 0 { verify_shapes[t % verify_shapes.len()] } else { (t * 7 + j * 3 + round) % calls.len() };
+                    let v = read_call(&r, &calls[i].0, &calls[i].1, &msgs);
+                    evs.push(json!({"t": "call", "thr": t, "seq": j, "round": round, "call": i, "name": calls[i].0, "resp": v}));
+                }
+                for j in 0..(if ncalls >= 200 { 4000 } else { 1000 }) {
+                    let i = proof_shapes[(t + j * (t % 3 + 1)) % proof_shapes.len()];
+                    let v = read_call(&r, &calls[i].0, &calls[i].1, &msgs);
+                    evs.push(json!({"t": "call", "thr": t, "seq": per_round + j, "round": round, "call": i, "name": calls[i].0, "resp": v}));
+                }
+                let _ = tx.send((t, evs));
+            });
         }
-    }
-    for (t, d) in done.iter().enumerate() {
-        out.push(json!({"t": "thread", "thr": t, "finished": *d}));
+        drop(tx);
+        let deadline = Instant::now() + Duration::from_secs(120);
+        let mut done = vec![false; nthreads];
+        while done.iter().any(|d| !*d) {
+            let left = deadline.saturating_duration_since(Instant::now());
+            match rx.recv_timeout(left) {
+                Ok((t, evs)) => {
+                    done[t] = true;
+                    out.extend(evs);
+                }
+                Err(_) => break,
+            }
+        }
+        for (t, d) in done.iter().enumerate() {
+            out.push(json!({"t": "thread", "thr": t, "round": round, "finished": *d}));
+        }
     }
 }
 
